@@ -1874,6 +1874,19 @@ class Model:
         if surrogate is None:
             surrogate = self._surrogates[name]
 
+        # Check new outputs before anything is changed
+        old_outputs = list(self._surrogates[name].outputs)
+        new_outputs = list(surrogate.outputs if outputs is None else outputs)
+        for i, new_id in enumerate(new_outputs):
+            if new_id == "time":
+                msg = "time is a protected variable for time"
+                raise KeyError(msg)
+            if (
+                new_id in self._ids and new_id not in old_outputs
+            ) or new_id in new_outputs[:i]:
+                msg = f"Model already contains surrogate called '{new_id}'"
+                raise NameError(msg)
+
         # Update existing / passed surrogate (other args always take precendece)
         if args is not None:
             surrogate.args = args
@@ -1883,7 +1896,7 @@ class Model:
             surrogate.stoichiometries = stoichiometries
 
         # Update ids
-        for i in self._surrogates[name].outputs:
+        for i in old_outputs:
             self._remove_id(name=i)
         for i in surrogate.outputs:
             self._insert_id(name=i, ctx="surrogate")
